@@ -23,6 +23,7 @@ error, return within the watchdog, and leave no goroutine.  — partial.
 import BW.Model.ErrFlow
 import BW.Generated.ErrFacts
 import BW.Props.C08
+import BW.Generated.ParFacts
 
 namespace BW.Props.C20
 open BW.Model.ErrFlow BW.Generated
@@ -102,6 +103,12 @@ theorem failing_construct_leaves_no_goroutine (n cap want : Nat) (s : BW.Model.C
 def insertTwo : Plan := .par (.seq (.call 0) (.call 1)) (.seq (.call 2) (.call 3))
 example : noDrop insertTwo = true ∧ (run (fun i => i == 3) insertTwo) = (true, [0, 1, 2, 3]) := by decide
 
+/-- Regenerated obligation (`parfacts`, go/ast): every `Lock()` / `RLock()` of the planner and of the result table
+    is released on every path — the unlock is deferred in the next statement, or follows in the same block with
+    no return in between. (A per-graph write error is appended under a mutex in `update`: a lock left held there
+    blocks the second failing writer and with it the statement.) -/
+theorem no_lock_is_left_held : BW.Generated.unbalancedLocks = [] := by decide
+
 end BW.Props.C20
 
 #print axioms BW.Props.C20.error_surfaces
@@ -112,3 +119,4 @@ end BW.Props.C20
 #print axioms BW.Props.C20.failing_read_leaves_no_goroutine
 #print axioms BW.Props.C20.failing_row_builder_leaves_no_goroutine
 #print axioms BW.Props.C20.failing_construct_leaves_no_goroutine
+#print axioms BW.Props.C20.no_lock_is_left_held
